@@ -683,3 +683,114 @@ func c05r3(rc *core.RC) {
 		}
 	}
 }
+
+// ---- C05.R5 a separator is followed by an element ----
+
+// consumesInput: the node contains a call that scans input (takes the buffer
+// and a cursor, or the *Stream) other than the whitespace skippers and byte peeks.
+func consumesInput(info *types.Info, n ast.Node) bool {
+	hit := false
+	ast.Inspect(n, func(m ast.Node) bool {
+		if _, isLit := m.(*ast.FuncLit); isLit {
+			return false
+		}
+		call, ok := m.(*ast.CallExpr)
+		if !ok {
+			return true
+		}
+		switch core.CalleeName(info, call) {
+		case "decoder.skipWhiteSpace", "encoder.skipWhiteSpace", "decoder.Stream.skipWhiteSpace", "decoder.Stream.char", "decoder.char",
+			"decoder.Stream.stat", "decoder.Stream.bufptr", "decoder.Stream.read", "decoder.Stream.totalOffset", "decoder.Stream.statForRetry":
+			return true
+		}
+		f := core.Callee(info, call)
+		takes := false
+		if sel, ok := core.Unparen(call.Fun).(*ast.SelectorExpr); ok {
+			if tv := info.Types[sel.X]; tv.Type != nil && strings.HasSuffix(tv.Type.String(), "decoder.Stream") {
+				takes = true // method of *Stream
+			}
+		}
+		for _, a := range call.Args {
+			if isCursorExpr(a) {
+				takes = true
+			}
+			if be, ok := core.Unparen(a).(*ast.BinaryExpr); ok && isCursorExpr(be.X) {
+				takes = true
+			}
+			if tv := info.Types[a]; tv.Type != nil && strings.HasSuffix(tv.Type.String(), "decoder.Stream") {
+				takes = true
+			}
+		}
+		if takes && (f == nil || strings.HasPrefix(pkgPathOf(f), core.ModPath)) {
+			// error constructors take a cursor for the offset but consume nothing
+			if f != nil && (strings.HasSuffix(pkgPathOf(f), "/internal/errors") || strings.HasPrefix(f.Name(), "err") || strings.Contains(f.Name(), "Error")) {
+				return true
+			}
+			hit = true
+		}
+		return true
+	})
+	return hit
+}
+
+func c05r5(rc *core.RC) {
+	n := 0
+	for _, d := range dispatchSites(rc) {
+		if d.role != "value" || !d.bs.HasLabel(',') {
+			continue
+		}
+		// container scanners only: Decode/DecodeStream/DecodePath methods and the compact/indent scanners.
+		// (*Stream).Token is a tokenizer that deliberately does not track the grammar; it is outside C05's wording.
+		switch nm := d.fd.Name.Name; {
+		case nm == "Decode" || nm == "DecodeStream" || nm == "DecodePath":
+		case strings.HasPrefix(nm, "compact") || strings.HasPrefix(nm, "indent"):
+		default:
+			continue
+		}
+		// only separator dispatches of containers: a closer label must be present too
+		if !d.bs.HasLabel(']') && !d.bs.HasLabel('}') {
+			continue
+		}
+		n++
+		rc.Touch(d.fn)
+		info := d.cf.Info
+		entry := d.entryBlock(',')
+		key := d.key("comma-then-element")
+		if entry == nil {
+			rc.Unknown(key, d.bs.Stmt.Pos(), "no entry block for the ',' clause")
+			continue
+		}
+		seen := map[*cfg.Block]bool{}
+		var bad *ast.ReturnStmt
+		var visit func(b *cfg.Block)
+		visit = func(b *cfg.Block) {
+			if seen[b] || bad != nil {
+				return
+			}
+			seen[b] = true
+			for _, nd := range b.Nodes {
+				if consumesInput(info, nd) {
+					return // an element (or key) is scanned on this path
+				}
+			}
+			if r := core.BlockReturn(b); r != nil {
+				if !d.cf.IsFailure(r) {
+					bad = r
+				}
+				return
+			}
+			for _, s := range b.Succs {
+				visit(s)
+			}
+		}
+		visit(entry)
+		if bad == nil {
+			rc.OK(key, d.bs.Stmt.Pos(), "after ',' every path scans another element before the container can end successfully")
+		} else {
+			rc.Bad(key, bad.Pos(), "after a ',' there is a path to a successful return (%s) on which no further element is scanned: a trailing comma before the closing bracket is accepted", core.Clip(core.Src(rc.P.Fset, bad), 60))
+		}
+	}
+	if n < 8 {
+		rc.Unknown("decoder/separator-dispatches", token.NoPos, "found %d container separator dispatches (confirmed: array, slice ×3 modes, compact/indent object/array)", n)
+	}
+}
